@@ -144,6 +144,7 @@ def _d3(x, y, z): return dg('d3', x, y, z)
 def _t2(x): return dg('t2a', x), dg('t2b', x)
 def _sw(x, y): return y, x                       # returns its inputs themselves
 def _t3(x): return dg('t3a', x), [dg('t3b', x)], dg('t3c', x)
+def _t4(x): return dg('t4a', x), [dg('t4b', x)], dg('t4c', x), {'p': dg('t4d', x)}
 def _mk(x): return {'o1': dg('o1', x), 'o2': [dg('o2', x), dg('o2b', x)], 'o3': {'p': dg('o3', x)}}
 def _mk2(x, y): return {'o1': dg('o1', x, y), 'o2': [x, y], 'o3': {'p': dg('o3', y)}}
 def _mt(x): return {'o1': dg('m1', x), 'o2': [dg('m2', x), 7]}, dg('m3', x)
@@ -166,6 +167,7 @@ def _pt(x): return True
 POOL = {
     'd1': (_d1, 1, 'one'), 'd2': (_d2, 2, 'one'), 'd3': (_d3, 3, 'one'),
     't2': (_t2, 1, 'tuple2'), 'sw': (_sw, 2, 'tuple2'), 't3': (_t3, 1, 'tuple3'),
+    't4': (_t4, 1, 'tuple4'),   # only used by the directed several-SKIP cases
     'mk': (_mk, 1, 'dict'), 'mk2': (_mk2, 2, 'dict'), 'mt': (_mt, 1, 'dict+one'),
     'ls': (_ls, 1, 'one'), 'echo': (_echo, 1, 'one'), 'nt': (_nt, 1, 'one'),
     'r1': (_r1, 1, 'rows1'), 'r2': (_r2, 2, 'rows2'), 'r21': (_r21, 2, 'rows1'),
@@ -859,6 +861,118 @@ def gen_trigger_chain(rng, records, trigger):
   except Exception:  # pylint: disable=broad-exception-caught
     return None
   raise ValueError(trigger)
+
+
+# ---------------------------------------------------------------------------
+# Aggregates behind a chain, outputs dropped with SKIP (C08 'aggskip' chunks)
+# ---------------------------------------------------------------------------
+
+AGG_NAMES = ['m', 'n', 'r', 's', 't', 'u', 'v', 'w', 'm2', 'n2', 'SKIP', 'SELF']
+
+
+class DigestAgg:
+  """User aggregate with n_out outputs; order sensitive, total on every value."""
+
+  def __init__(self, tag, n_out):
+    self.tag, self.n_out = tag, n_out
+
+  def create_state(self):
+    return []
+
+  def update_state(self, state, *args, **kwargs):
+    return state + [dg(self.tag, args, sorted(kwargs.items()))]
+
+  def merge_states(self, states):
+    return [x for s in states for x in s]
+
+  def get_result(self, state):
+    outs = (dg(self.tag + 'r', state), len(state), [dg(self.tag + 'l', state[:1])],
+            {'p': sum(state) % 997})[:self.n_out]
+    return outs[0] if self.n_out == 1 else tuple(outs)
+
+
+def make_agg(spec):
+  return DigestAgg(spec['fn'], spec['n_out'])
+
+
+def agg_with_skips(spec, positions):
+  """The aggregate / assign spec with exactly `positions` of its outputs under SKIP."""
+  keys = [SKIP if i in positions else n for i, n in enumerate(spec['names'])]
+  form = 'single' if len(keys) == 1 and spec.get('single') else 'tuple'
+  return dict(spec, skip=sorted(positions), out=K(*keys, form=form))
+
+
+def add_aggs(t, aggs):
+  """Stacks aggregate specs on a TreeTransform through the public API."""
+  for i, a in enumerate(aggs):
+    kw = dict(input_keys=lib_keys(a['in']), output_keys=lib_keys(a['out']))
+    if i == 0:
+      t = (t.agg if a['api'] == 'agg' else t.aggregate)(make_agg(a), **kw)
+    else:
+      t = (t.add_agg if a['api'] == 'agg' else t.add_aggregate)(fn=make_agg(a), **kw)
+  return t
+
+
+def _skip_positions(rng, n_out, how_many):
+  return sorted(rng.sample(range(n_out), how_many))
+
+
+def gen_aggs(rng, stream, cls):
+  """1-3 stacked aggregates for the stream; cls in control / one / repeat.
+
+  control: no SKIP; one: exactly one SKIP in exactly one aggregate; repeat: two or
+  more SKIPs in total (inside one aggregate and / or across stacked aggregates).
+  Every aggregate keeps at least one output; kept names are distinct over the stack.
+  """
+  cands = candidates(stream)
+  n_aggs = rng.choice([1, 1, 2, 2, 3])
+  names = rng.sample(AGG_NAMES, len(AGG_NAMES))
+  aggs = []
+  for i in range(n_aggs):
+    n_out = rng.choice([1, 2, 2, 3, 3, 4]) if i else rng.choice([2, 3, 4])
+    keys = _pick_inputs(rng, cands, rng.choice([1, 1, 2]))
+    spec = {'fn': 'g%d' % i, 'n_out': n_out, 'in': _in_container(rng, keys),
+            'names': [names.pop() for _ in range(n_out)] if n_out <= len(names) else None,
+            'single': rng.random() < 0.5, 'api': rng.choice(['agg', 'aggregate'])}
+    if spec['names'] is None:
+      return None
+    aggs.append(spec)
+  rng.shuffle(aggs)
+  multi = [i for i, a in enumerate(aggs) if a['n_out'] >= 2]
+  skips = {i: [] for i in range(n_aggs)}
+  if cls == 'one':
+    i = rng.choice(multi)
+    skips[i] = _skip_positions(rng, aggs[i]['n_out'], 1)
+  elif cls == 'repeat':
+    wide = [i for i in multi if aggs[i]['n_out'] >= 3]
+    if len(multi) >= 2 and (not wide or rng.random() < 0.6):
+      for i in rng.sample(multi, rng.randint(2, len(multi))):
+        skips[i] = _skip_positions(rng, aggs[i]['n_out'],
+                                   rng.randint(1, aggs[i]['n_out'] - 1))
+    elif wide:
+      i = rng.choice(wide)
+      skips[i] = _skip_positions(rng, aggs[i]['n_out'],
+                                 rng.randint(2, aggs[i]['n_out'] - 1))
+      for j in multi:
+        if j != i and rng.random() < 0.3:
+          skips[j] = _skip_positions(rng, aggs[j]['n_out'], 1)
+    else:
+      return None
+  return [agg_with_skips(a, skips[i]) for i, a in enumerate(aggs)]
+
+
+def gen_multi_skip_assign(rng, stream, tracked):
+  """assign of a 3 / 4-output function with two or more outputs under SKIP (or None)."""
+  if not stream or HSELF in tracked or not all(isinstance(r, dict) for r in stream):
+    return None
+  name = rng.choice(['t3', 't4'])
+  n_out = 3 if name == 't3' else 4
+  keys = _pick_inputs(rng, candidates(stream), 1)
+  names = _fresh(rng, tracked, n_out)
+  if names is None:
+    return None
+  op = {'op': 'assign', 'fn': name, 'in': _in_container(rng, keys), 'names': names}
+  return agg_with_skips(op, _skip_positions(rng, n_out, rng.randint(2, n_out - 1)))
 
 
 def chain_nontrivial(chain, n_records):
